@@ -94,3 +94,36 @@ Proof.
   split; vm_compute; reflexivity.
 Qed.
 Print Assumptions C05_triple_roundtrip_refuted.
+
+(* ---- graphs: write, then read into an empty graph.
+   g : the memory graph's master index (key = UUID pre-image, consistent with its triple).  Domain: every triple in
+   dom_graph-like domain (gdom_triple, implied by dom_triple under oracle_laws), every printed line shorter than 64 KiB and
+   without a newline byte.  Then WriteGraph reports |g|, ReadIntoGraph reports |g| with nil error, and the graph read has
+   exactly the keys (UUIDs) of g. *)
+From BWValues Require Import IoProofs.
+
+Theorem C05_graph_roundtrip : forall O, oracle_laws O -> forall g : graph,
+  graph_consistent g ->
+  Forall (fun e => dom_triple (snd e) = true) g ->
+  Forall (fun e => too_long (print_triple O (snd e)) = false /\ ~ In x0a (print_triple O (snd e))) g ->
+  fst (write_graph O g) = N.of_nat (List.length g) /\
+  exists g', read_into_graph O [] (snd (write_graph O g)) = (N.of_nat (List.length g), RNil, g') /\
+             forall k, In k (map fst g') <-> In k (map fst g).
+Proof.
+  intros O L g Hc Hd Hl. apply (graph_roundtrip_g O (law_quote O L) g Hc); [|exact Hl].
+  eapply Forall_impl; [|exact Hd]. intros e H. apply dom_triple_g; assumption.
+Qed.
+Print Assumptions C05_graph_roundtrip.
+
+(* REFUTED without the newline condition: a text literal containing a newline is written as two lines, the reader
+   stops at the first with an error and loads nothing *)
+Theorem C05_graph_roundtrip_refuted : exists g : graph,
+  graph_consistent g /\ Forall (fun e => dom_triple (snd e) = true) g /\
+  fst (write_graph id_oracles g) = 1%N /\
+  fst (read_into_graph id_oracles [] (snd (write_graph id_oracles g))) = (0%N, RErr).
+Proof.
+  exists [((lit "/ab", lit "pimmutable", [x61; x0a; x62]),
+           mkTriple (mkNode (lit "/a") (lit "b")) (mkPred (lit "p") None) (OLit (LText [x61; x0a; x62])))].
+  split; [repeat constructor|]. split; [repeat constructor|]. split; vm_compute; reflexivity.
+Qed.
+Print Assumptions C05_graph_roundtrip_refuted.
